@@ -178,10 +178,23 @@ func manySmall(rt *rapid.T) ([]byte, string, string) {
 		if rapid.Bool().Draw(rt, "tiny.common") {
 			typ = rapid.SampledFrom([]string{"uuid", "hdlr", "pitm", "iinf", "iloc", "infe", "idat", "iref", "iprp", "CTBO", "CNCV", "CMT1", "CMT3", "PRVW", "trak", "free"}).Draw(rt, "tiny.type2")
 		}
-		pl := rapid.IntRange(0, 8).Draw(rt, "tiny.payload")
-		n = rapid.SampledFrom([]int{2000, 20000, 100000}).Draw(rt, "tiny.copies")
+		pl := rapid.IntRange(0, 20).Draw(rt, "tiny.payload")
+		if rapid.Bool().Draw(rt, "tiny.container") {
+			// container types left with room for a child header (8..15 bytes) but not for the 16 bytes of a 64-bit one
+			typ = rapid.SampledFrom([]string{"iprp", "ipco", "iref", "dinf", "trak", "mdia", "minf", "stbl", "grpl", "moov", "meta"}).Draw(rt, "tiny.ctype")
+			pl = rapid.IntRange(8, 19).Draw(rt, "tiny.cpayload")
+		}
+		n = rapid.SampledFrom([]int{2000, 20000, 100000, 300000}).Draw(rt, "tiny.copies")
 		where := rapid.SampledFrom([]string{"moov", "canon", "meta", "top"}).Draw(rt, "tiny.where")
-		one := (&gen.Box{Type: typ, Data: make([]byte, pl)}).Serialise(0)
+		payload := make([]byte, pl)
+		if typ == "uuid" && rapid.Bool().Draw(rt, "tiny.knownuuid") {
+			// a uuid box that carries one of the identifiers the reader knows and (almost) nothing behind it
+			payload = append(append([]byte{}, rapid.SampledFrom([][]byte{gen.UUIDPreview, gen.UUIDCanon, gen.UUIDXPacket}).Draw(rt, "tiny.uuid")...), make([]byte, pl%9)...)
+			if rec.Env.Thorough() {
+				n = rapid.SampledFrom([]int{20000, 300000, 600000}).Draw(rt, "tiny.copies2")
+			}
+		}
+		one := (&gen.Box{Type: typ, Data: payload}).Serialise(0)
 		body := bytes.Repeat(one, n)
 		brand := "crx "
 		var out []byte
